@@ -643,7 +643,10 @@ class GroupCoordinator(BaseCoordinator):
                 else:
                     assignment = subscription.assignment
 
-                assert assignment is not None and assignment.active
+                if assignment is None or not assignment.active:
+                    # The subscription was changed while we were waiting for the
+                    # coordinator; pick up the new one on the next iteration.
+                    continue
 
                 # We will only try to commit offsets once here. In error case
                 # the returned wait_timeout will be ``retry_backoff``. In
